@@ -9,6 +9,7 @@ import (
 	"math/bits"
 	"os"
 	"path"
+	"path/filepath"
 	"reflect"
 	"strconv"
 
@@ -223,6 +224,11 @@ func fixStdlib(interp *Interpreter) {
 	}
 
 	if p = interp.binPkg["os"]; p != nil {
+		// Do not trust extracted values maybe from another OS.
+		p["DevNull"] = reflect.ValueOf(constant.MakeString(os.DevNull))
+		p["PathListSeparator"] = reflect.ValueOf(constant.MakeInt64(os.PathListSeparator))
+		p["PathSeparator"] = reflect.ValueOf(constant.MakeInt64(os.PathSeparator))
+
 		p["Args"] = reflect.ValueOf(&interp.args).Elem()
 		if interp.specialStdio {
 			// Inherit streams from interpreter even if they do not have a file descriptor.
@@ -257,6 +263,12 @@ func fixStdlib(interp *Interpreter) {
 				return
 			})
 		}
+	}
+
+	if p = interp.binPkg["path/filepath"]; p != nil {
+		// Do not trust extracted values maybe from another OS.
+		p["ListSeparator"] = reflect.ValueOf(constant.MakeInt64(filepath.ListSeparator))
+		p["Separator"] = reflect.ValueOf(constant.MakeInt64(filepath.Separator))
 	}
 
 	if p = interp.binPkg["math/bits"]; p != nil {
